@@ -1,6 +1,6 @@
 from collections import defaultdict
 from enum import Enum
-from functools import partial, wraps
+from functools import wraps
 from types import new_class
 from typing import (
     TYPE_CHECKING,
@@ -212,7 +212,12 @@ def as_names(cls: EnumCls, aliaser: Callable[[str], str] = lambda s: s) -> EnumC
     name_cls = type_name(None)(
         new_class(cls.__name__, (str, Enum), exec_body=exec_body)
     )
-    deserializer(Conversion(partial(getattr, cls), source=name_cls, target=cls))
+
+    def from_name(name_elt):
+        # name_elt value is the aliased name, its name is the one of cls element
+        return getattr(cls, name_elt.name)
+
+    deserializer(Conversion(from_name, source=name_cls, target=cls))
 
     def get_name(obj):
         return getattr(name_cls, obj.name)
